@@ -40,6 +40,10 @@ Print Assumptions C20_full_when_fixed.
 Theorem C20_refuted_short_node_value : fixed_F4 = false -> ~ C20_full_statement /\ guard_node_value_not_circuit F4_probe = false.
 Proof. exact GuardsProofs.C20_refuted_short_node_value. Qed.
 Print Assumptions C20_refuted_short_node_value.
+Theorem C20_short_key_is_loud : forall k depth hnet p, too_short depth p = true ->
+  hier_result_gen true k depth hnet p = match k with HEdge => Err EOther | HOutput => Err EPyRates | _ => Warn end.
+Proof. exact short_key_is_loud. Qed.
+Print Assumptions C20_short_key_is_loud.
 Theorem C20_short_node_value_repaired : forall depth hnet p, too_short depth p = true ->
   names_circuit hnet (node_part p) = true -> hier_result_gen true HNodeValue depth hnet p = Warn.
 Proof. exact short_node_value_repaired. Qed.
